@@ -547,10 +547,8 @@ theorem getNext_some_of_pos {w : World} (h : 0 < nSched w) : ∃ hd, w.obs.repo.
   exact Repo.getNext_isSome_of_scheduled ht hs
 
 theorem LiveInv.clk {w : World} (h : LiveInv w) :
-    w.obs.clock.armed.isSome = true → w.obs.clock.pending = false := by
-  rcases h.hook with hI | ⟨hd, _, _⟩
-  · exact hI.2.clk
-  · intro ha; rw [hd.1] at ha; cases ha
+    w.obs.clock.armed.isSome = true → w.obs.clock.pending = false :=
+  h.loose.clk
 
 theorem reset_fresh (c : Clock) (s : Time) :
     (({ c with armed := none, pending := false } : Clock).reset (s - c.now)).now = c.now ∧
